@@ -27,6 +27,54 @@ CHECKS = {
             "one-shot keys; edge-cover replay binds L1 to the code; random schedules and a 20-fold stacked burst are recorded "
             "from the code and validated by TLC against P_C06.",
             "5 C06", TECH, BOUNDS + "; one-shot stack bounded to 3 in the exhaustive instances"),
+    "C03": ("exploration",
+            "TLC enumerates structure-aware mutations of a seed corpus of real configurations (spec/CfgMutate.tla: all single "
+            "mutations at all sites, bounded double mutations) and a grammar sweep (spec/CfgGrammar.tla), and states the allowed "
+            "outcome relation (spec/CfgOutcome.tla: Ok, or an error whose span lies inside the file it names and whose rendering "
+            "succeeds); every text is executed on the real loader in watched worker subprocesses (panic, stack overflow, abort or "
+            "timeout = violation) and the recorded outcome tuples are judged by TLC. Sub-claim at model-checking level: the "
+            "byte-level lexer / list builder (spec/Lexer.tla) is explored by TLC over all inputs up to the bound and the real "
+            "sexpr::parse is compared with it on all strings up to 5 symbols.",
+            "5 C03", "TLC-enumerated input space + outcome relation judged by TLC over results recorded from the real parser; "
+            "TLC model of the lexer with exhaustive conformance on short strings",
+            "exploration over texts (no proof over all texts); seed corpus = cfg_samples, docs, parser tests; 12-symbol lexer alphabet; "
+            "3 s watchdog per text; dev-profile build"),
+    "C10": ("translation_validation",
+            "The programs are switch conditions / case lists written as configuration text. TLC enumerates every expression shape "
+            "up to the node bound over leaf triples and every truth assignment, evaluates the documented meaning (Switch.tla Denote / "
+            "DenoteCases), the compiler model (Compile) and the evaluator model (Run, one TLA+ step per loop iteration), and checks "
+            "Run(Compile(e)) = Denote(e); the harness gives the rendered text to the real parser, compares the opcodes with Compile, "
+            "and calls the real Switch::actions in every enumerated environment; key-timing thresholds 0..65535 are compared "
+            "exhaustively; a sample runs end to end through the stepper and is validated by TLC against P_C10. A violation is a "
+            "disagreement of the real code with the documented meaning.",
+            "5 C10", "TLC evaluation of the documented denotation vs the real parser + evaluator on every enumerated program x environment",
+            "expression shapes up to 5 nodes (quick) / 7 (thorough) over 3 leaves per triple; case lists up to 8; dev-profile build"),
+    "C11": ("model_checking",
+            "TLC checks spec/KeyTables.tla over constants generated from the working tree at check time (discriminant sets of KeyCode "
+            "and OsCode parsed from the source, from_u16/as_u16 called for all 65536 values, every key name resolved by the real "
+            "str_to_oscode): equal code spaces, round trips, functional names, reserved no-op codes. Every code is pressed and "
+            "released through the real stepper under identity configurations and the traces are validated by TLC against P_C11; "
+            "random defsrc / deflayermap / process-unmapped-keys lists: the real parser's mapped_keys is compared by TLC with "
+            "P_C11.Intercept computed from the text.",
+            "5 C11", "TLC over tables extracted from the code (exhaustive) + TLC trace validation of the identity pipeline",
+            "undefined behaviour of transmute is not observable, only its precondition (equal discriminant sets) is checked; Linux code tables"),
+    "C13": ("model_checking",
+            "TLC enumerates override tables x active-key lists and checks the transliteration of key_override.rs (spec/Overrides.tla) "
+            "against the relation P_C13.Allowed written from the statement; the real Overrides::override_keys is called on every "
+            "exported case and compared (zero drift); results on tables over all 8 modifiers are judged by TLC; pipeline instances "
+            "(defoverrides + plain keys) are model-checked L1 || P_C13 with edge-cover replay, and random histories are recorded "
+            "from the real stepper and validated by TLC against the monitor (substituted set while held, outputs released and "
+            "modifiers back when the combination ends).",
+            "5 C13", TECH, BOUNDS + "; tables of <= 3 overrides over 2 keys and 3 of the 8 modifiers in the exhaustive part"),
+    "C16": ("translation_validation",
+            "spec/CfgLang.tla defines s-expression trees, Norm (documented semantics of include, platform, templates, variables, "
+            "aliases, deflayermap) and the abstraction steps as actions; TLC explores every step at every site and compositions of "
+            "steps from a family of base configurations, checks Norm(Step(c)) = Norm(c) and prints every pair; each pair is given "
+            "to the real parser: accepted iff accepted, structurally equal parse results, equal traces on shared random histories; "
+            "random compositions of the same steps over configurations from the whole action grammar (transcription cross-checked "
+            "against TLC's output).",
+            "5 C16", "TLC-enumerated rewrite pairs + comparison of the real parser's results and of recorded behaviours on both sides",
+            "base family of small configurations; compositions of <= 3 steps exhaustively, random beyond; active platform = linux"),
     "C17": ("model_checking",
             "TLC checks L1 against the tap-dance monitor P_C17 (group-wise accounting of every typed tap: no tap swallowed, no "
             "action for taps not typed; in the sharp zone the exact resolution tick and the exact action for the number of taps "
@@ -68,7 +116,7 @@ def main():
             "guard": "kanata_verif",
             "enable": "RUSTFLAGS --cfg kanata_verif via harness/.cargo/config.toml (the harness builds /repo as a path dependency)",
             "baseline_off_cmd": "cd /repo && cargo test --workspace --no-fail-fast --offline",
-            "source_commits": [],
+            "source_commits": ["823cc88"],
             "add_only": True,
         },
         "engines": [
